@@ -12,6 +12,7 @@ import (
 	"testing/synctest"
 	"time"
 
+	"gitlab.com/gomidi/midi/v2"
 	"gitlab.com/gomidi/midi/v2/drivers"
 	"gitlab.com/gomidi/midi/v2/drivers/midicatdrv"
 
@@ -54,6 +55,12 @@ type CatSc struct {
 	TimeCode    bool `json:"timing_clock,omitempty"`
 	SysEx       bool `json:"sysex,omitempty"`
 	Mix         bool `json:"mix,omitempty"`
+	// Extra: every lifecycle thread also opens the second port of its kind (number 1) for
+	// the whole session; half of the sender threads use the second out port.
+	Extra bool `json:"extra,omitempty"`
+	// ViaListenTo: listeners are attached with midi.ListenTo (which opens the port if
+	// necessary) instead of in.Listen.
+	ViaListenTo bool `json:"via_listen_to,omitempty"`
 }
 
 // inRecMsg is the message carried by record k of the in helper.
@@ -105,6 +112,8 @@ func (catWorld) Gen(seed uint64, tier string) core.Scenario {
 	if r.Chance(1, 3) {
 		s.Observers = r.Range(1, 2)
 	}
+	s.Extra = r.Chance(1, 4)
+	s.ViaListenTo = r.Chance(1, 4)
 	if mode == 0 || mode == 2 {
 		s.InHelper = HelperCfg{Gap: r.PickInt(1, 1, 2, 5, 20)}
 		if r.Chance(1, 3) {
@@ -305,6 +314,20 @@ func (s *CatSc) Shrinks(try0 func(core.Scenario) bool) bool {
 			return true
 		}
 	}
+	if s.Extra {
+		c := *s
+		c.Extra = false
+		if try(&c) {
+			return true
+		}
+	}
+	if s.ViaListenTo {
+		c := *s
+		c.ViaListenTo = false
+		if try(&c) {
+			return true
+		}
+	}
 	if s.Mix {
 		c := *s
 		c.Mix, c.ActiveSense, c.TimeCode, c.SysEx = false, false, false, false
@@ -357,6 +380,7 @@ func (s *CatSc) Shrinks(try0 func(core.Scenario) bool) bool {
 var errStartFailed = errors.New("exec: \"midicat\": simulated start failure")
 
 type helper struct {
+	port    int    // port number (1 = the second port of its kind)
 	kind    string // in | out
 	cfg     HelperCfg
 	cmd     *exec.Cmd
@@ -448,9 +472,9 @@ func installHooks() {
 			case strings.Contains(joined, "version"):
 				return []byte("0.6.9"), nil
 			case strings.Contains(joined, "ins --json"):
-				return []byte(`{"0":"sim-in-0"}`), nil
+				return []byte(`{"0":"sim-in-0","1":"sim-in-1"}`), nil
 			case strings.Contains(joined, "outs --json"):
-				return []byte(`{"0":"sim-out-0"}`), nil
+				return []byte(`{"0":"sim-out-0","1":"sim-out-1"}`), nil
 			}
 			return nil, fmt.Errorf("unknown helper invocation %q", joined)
 		},
@@ -464,16 +488,32 @@ func installHooks() {
 			if kind == "in" {
 				cfg = w.sc.InHelper
 			}
-			attempt := w.nextStart(kind)
-			for _, f := range cfg.FailStarts {
-				if f == attempt {
-					logEvent("helper-start-failed", int64(attempt), 0, kind)
-					return errStartFailed
+			tag := kind
+			extraPort := false
+			for _, a := range c.Args {
+				if a == "--index=1" {
+					extraPort = true
+					tag = kind + "1"
 				}
 			}
+			attempt := -1
+			if !extraPort {
+				attempt = w.nextStart(kind)
+				for _, f := range cfg.FailStarts {
+					if f == attempt {
+						logEvent("helper-start-failed", int64(attempt), 0, kind)
+						return errStartFailed
+					}
+				}
+			} else {
+				cfg.FailStarts, cfg.DieAt, cfg.StallLen = nil, 0, 0
+			}
 			h := &helper{kind: kind, cfg: cfg, cmd: c}
+			if extraPort {
+				h.port = 1
+			}
 			w.addHelper(h)
-			logEvent("helper-start", int64(attempt), 0, kind)
+			logEvent("helper-start", int64(attempt), 0, tag)
 			if kind == "in" {
 				h.actorID = startThread(func() { w.runInHelper(h) })
 			} else {
@@ -518,13 +558,13 @@ func (w *world) runInHelper(h *helper) {
 		}
 		k := w.takeRec()
 		line := encodeLine(int32(k), w.sc.inRecMsg(k))
-		logEvent("emit-start", k, 0, "")
+		logEvent("emit-start", k, int64(h.port), "")
 		_, err := out.Write(line)
 		if err != nil {
 			logEvent("emit-failed", k, 0, err.Error())
 			return
 		}
-		logEvent("emit-done", k, 0, "")
+		logEvent("emit-done", k, int64(h.port), "")
 		emitted++
 		if emitted > 400 {
 			return
@@ -673,6 +713,19 @@ func (s *CatSc) execute(env *core.Env) (ro runOut) {
 			threads = append(threads, startThread(func() {
 				var stops []func()
 				nListen := int64(0)
+				if s.Extra && len(ins) > 1 {
+					do("in", -1, "open-extra", func() (error, int64) { return ins[1].Open(), 0 })
+					defer func() {
+						do("in", -2, "close-extra", func() (error, int64) { return ins[1].Close(), 0 })
+					}()
+					if len(s.OutOps) == 0 && len(outs) > 1 {
+						// no out thread: this thread also holds the second out port (three open ports on one driver)
+						do("in", -3, "open-extra", func() (error, int64) { return outs[1].Open(), 0 })
+						defer func() {
+							do("in", -4, "close-extra", func() (error, int64) { return outs[1].Close(), 0 })
+						}()
+					}
+				}
 				for i, op := range s.InOps {
 					switch op.Op {
 					case "open":
@@ -681,9 +734,27 @@ func (s *CatSc) execute(env *core.Env) (ro runOut) {
 						nListen++
 						j := nListen
 						do("in", i, "listen", func() (error, int64) {
-							stop, err := in.Listen(func(b []byte, ms int32) {
-								logEvent("callback", j, int64(ms), string(b))
-							}, drivers.ListenConfig{ActiveSense: s.ActiveSense, TimeCode: s.TimeCode, SysEx: s.SysEx})
+							var stop func()
+							var err error
+							if s.ViaListenTo {
+								var o []midi.Option
+								if s.ActiveSense {
+									o = append(o, midi.UseActiveSense())
+								}
+								if s.TimeCode {
+									o = append(o, midi.UseTimeCode())
+								}
+								if s.SysEx {
+									o = append(o, midi.UseSysEx())
+								}
+								stop, err = midi.ListenTo(in, func(m midi.Message, ms int32) {
+									logEvent("callback", j, int64(ms), string(m))
+								}, o...)
+							} else {
+								stop, err = in.Listen(func(b []byte, ms int32) {
+									logEvent("callback", j, int64(ms), string(b))
+								}, drivers.ListenConfig{ActiveSense: s.ActiveSense, TimeCode: s.TimeCode, SysEx: s.SysEx})
+							}
 							if err == nil {
 								stops = append(stops, stop)
 							} else {
@@ -713,6 +784,25 @@ func (s *CatSc) execute(env *core.Env) (ro runOut) {
 						do("in", i, "close", func() (error, int64) { return in.Close(), 0 })
 					case "driverclose":
 						do("in", i, "driverclose", func() (error, int64) { return drv.Close(), 0 })
+						if s.Extra && len(ins) > 1 {
+							open := int64(0)
+							if ins[1].IsOpen() {
+								open = 1
+							}
+							logEvent("extra-after-driverclose", open, 0, "in1")
+							if len(s.OutOps) == 0 && len(outs) > 1 {
+								open = 0
+								if outs[1].IsOpen() {
+									open = 1
+								}
+								logEvent("extra-after-driverclose", open, 0, "out1")
+							}
+							open = 0
+							if in.IsOpen() {
+								open = 1
+							}
+							logEvent("extra-after-driverclose", open, 0, "in0")
+						}
 					}
 				}
 			}))
@@ -722,6 +812,12 @@ func (s *CatSc) execute(env *core.Env) (ro runOut) {
 			threads = append(threads, startThread(func() {
 				var senders []uint64
 				msgNo := int64(0)
+				if s.Extra && len(outs) > 1 {
+					do("out", -1, "open-extra", func() (error, int64) { return outs[1].Open(), 0 })
+					defer func() {
+						do("out", -2, "close-extra", func() (error, int64) { return outs[1].Close(), 0 })
+					}()
+				}
 				for i, op := range s.OutOps {
 					switch op.Op {
 					case "open":
@@ -737,7 +833,12 @@ func (s *CatSc) execute(env *core.Env) (ro runOut) {
 							senders = append(senders, startThread(func() {
 								for m := 0; m < op.M; m++ {
 									k := base + int64(m)
-									do(fmt.Sprintf("sender-%d-%d", i, sn), m, "send", func() (error, int64) { return out.Send(recMsg(k)), k })
+									if s.Extra && len(outs) > 1 && sn%2 == 1 {
+										// this sender uses the second out port (another port object, another helper)
+										do(fmt.Sprintf("sender-%d-%d", i, sn), m, "send-extra", func() (error, int64) { return outs[1].Send(recMsg(k)), k })
+									} else {
+										do(fmt.Sprintf("sender-%d-%d", i, sn), m, "send", func() (error, int64) { return out.Send(recMsg(k)), k })
+									}
 									yield()
 								}
 							}))
@@ -762,6 +863,13 @@ func (s *CatSc) execute(env *core.Env) (ro runOut) {
 						do("out", i, "close", func() (error, int64) { return out.Close(), 0 })
 					case "driverclose":
 						do("out", i, "driverclose", func() (error, int64) { return drv.Close(), 0 })
+						if s.Extra && len(outs) > 1 {
+							open := int64(0)
+							if outs[1].IsOpen() {
+								open = 1
+							}
+							logEvent("extra-after-driverclose", open, 0, "out1")
+						}
 					}
 				}
 				// sender threads still running keep sending against the closed port
